@@ -30,7 +30,7 @@ META = {
 MANIFEST = {
     "level_text": "Bounded symbolic exploration: for each listed layout/configuration z3 enumerates every feasible weak ordering of the symbolic scores and "
                   "thresholds that the real fit+predict code distinguishes (each path covers all real score vectors of that class, ties included); on "
-                  "every path the group-wise expected constrained metric is checked equal. A counter-example is a concrete score vector, replayed on the real code.",
+                  "every path the group-wise expected constrained metric is checked equal. A counter-example is a concrete score vector, replayed on the real code. Plus the unit lemma U1: the real hull filter + interpolation run on SYMBOLIC curve points (K<=5/6, any reals in [0,1]^2, sorted): z3 proves the interpolation weights are a distribution and hit the grid value exactly, for all reals.",
     "level_note": "Trusted: z3, symx, numpy/pandas as executed. Per-path numeric check in float64 with 1e-9 slack (curve values are concrete on a path).",
     "design_ref": "DESIGN.md section 6 C04",
 }
